@@ -210,8 +210,14 @@ impl<D: DataMut> LWEToMut for LWE<D> {
 impl<D: DataMut> ReaderFrom for LWE<D> {
     /// Deserialises an [`LWE`] in little-endian binary format.
     fn read_from<R: std::io::Read>(&mut self, reader: &mut R) -> std::io::Result<()> {
-        self.base2k = Base2K(reader.read_u32::<LittleEndian>()?);
-        self.data.read_from(reader)
+        // Temporaries first: `self` is only touched once the whole object has been read.
+        let base2k: Base2K = Base2K(reader.read_u32::<LittleEndian>()?);
+        if base2k.0 == 0 {
+            return Err(std::io::Error::new(std::io::ErrorKind::InvalidData, "LWE: base2k = 0"));
+        }
+        self.data.read_from(reader)?;
+        self.base2k = base2k;
+        Ok(())
     }
 }
 
